@@ -19,7 +19,7 @@ from __future__ import annotations
 import ast
 
 from ..callgraph import CallGraph
-from ..core import AnalysisError, RuleContext, need, norm, short
+from ..core import region, AnalysisError, RuleContext, need, norm, short
 from ..model import FuncInfo, dotted_of, walk_scope
 from ..roles import roles_for
 from ..typestate import NoReturn, StackBalance
@@ -33,11 +33,83 @@ def run(ctx: RuleContext):
     sb = StackBalance(m, r)
     cg = CallGraph(m)
     ctx.sub(check_balance, ctx, sb, cg, "C05")
+    ctx.sub(check_context_block_starts_empty, ctx, r)
     ctx.sub(check_storage_discipline, ctx, r)
     ctx.sub(check_passthrough_guard, ctx, r)
 
 
 # ------------------------------------------------------------------------ C05.5
+def check_context_block_starts_empty(ctx: RuleContext, r, tag="C05.6"):
+    """A `jaxtyped("context")` block has no arguments of its own: the frame it opens starts with an *empty* argument
+    memo (and empty bindings), so that `{name}` axes inside the block cannot see the arguments of whatever call
+    happens to be active around it."""
+    m = ctx.model
+    cc = m.cls("_decorator._JaxtypingContext")
+    enter = need(m.lookup_method(cc, "__enter__"), "_JaxtypingContext.__enter__ not found")
+    ctx.saw(enter)
+
+    def empty_dict(e):
+        return (isinstance(e, ast.Dict) and not e.keys) or (isinstance(e, ast.Call) and isinstance(e.func, ast.Name) and e.func.id == "dict" and not e.args and not e.keywords)
+
+    def trace(scope, e, depth=0):
+        """'empty' | 'context' | None (unknown) for the value pushed as the argument memo"""
+        if empty_dict(e):
+            return "empty"
+        if depth > 3:
+            return None
+        if any(isinstance(c, ast.Call) and r.role_of_call(scope, c) == "get_shape_memo" for c in ast.walk(e)):
+            return "context"
+        if isinstance(e, ast.Name):
+            defs = _assignments_to(scope, e.id)
+            if defs and e.id not in scope.params:
+                res = {trace(scope, d[1], depth + 1) if d[1] is not None else None for d in defs}
+                # unpacked from the current frame (`*_, arguments = get_shape_memo()`)
+                for d in defs:
+                    if d[1] is not None and any(isinstance(c, ast.Call) and r.role_of_call(scope, c) == "get_shape_memo" for c in ast.walk(d[1])):
+                        return "context"
+                return res.pop() if len(res) == 1 else None
+            return None
+        if isinstance(e, ast.Attribute) and isinstance(e.value, ast.Name) and scope.cls is not None and scope.params and e.value.id == scope.params[0]:
+            # a field set by a constructor: follow what the context class's own constructor passes for it
+            owner = scope.cls
+            vals = m.instance_attr_values(owner, e.attr)
+            outs = set()
+            for ofn, v in vals:
+                if isinstance(v, ast.Name) and v.id in ofn.params:
+                    idx = ofn.params.index(v.id) - 1
+                    ini = cc.methods.get("__init__")
+                    if ini is None:
+                        return None
+                    sup = [c for c in m.calls_in(ini) if isinstance(c.func, ast.Attribute) and c.func.attr == "__init__"]
+                    if len(sup) != 1 or idx >= len(sup[0].args):
+                        return None
+                    outs.add(trace(ini, sup[0].args[idx], depth + 1))
+                else:
+                    outs.add(trace(ofn, v, depth + 1) if v is not None else None)
+            return outs.pop() if len(outs) == 1 else None
+        return None
+
+    fns = list(region(m, enter, depth=2, skip_modules=()))
+    # `super().__enter__()`: the __enter__ of the bases
+    for k in m.mro(cc)[1:]:
+        if hasattr(k, "methods") and "__enter__" in k.methods and k.methods["__enter__"] not in fns:
+            fns += [h_ for h_ in region(m, k.methods["__enter__"], depth=2, skip_modules=()) if h_ not in fns]
+    fns = [h_ for h_ in fns if h_ is not r.push]
+    pushes = [c for h_ in fns for c in m.calls_in(h_) if r.role_of_call(h_, c) == "push_shape_memo"]
+    scopes = {id(c): h_ for h_ in fns for c in m.calls_in(h_)}
+    need(pushes, f"{tag}: the push of the context block's frame was not found from _JaxtypingContext.__enter__")
+    for c in pushes:
+        arg = c.args[0] if c.args else None
+        v = trace(scopes[id(c)], arg) if arg is not None else None
+        if v == "empty":
+            ctx.ok(tag, enter.qualname, "the context block opens a frame with an empty argument memo")
+        elif v == "context":
+            ctx.bad(tag, scopes[id(c)], c, f"the context block's frame is opened with `{short(arg, 50)}`, taken from the frame that is current when the block is entered: "
+                    "`{name}` axes inside the block see the arguments of the enclosing call", construct="context block inherits the enclosing arguments")
+        else:
+            raise AnalysisError(f"{tag}: what the context block pushes as its argument memo (`{short(arg, 50) if arg is not None else '?'}`) could not be traced")
+
+
 def check_passthrough_guard(ctx: RuleContext, r):
     """The only way a new-style wrapper may run the body *without* a binding context of its own is the
     pass-through taken when checking is switched off.  A further reason to take it that is decided from a
@@ -297,6 +369,18 @@ def is_top_expr(r, fn: FuncInfo, e, al=None, depth: int = 0) -> bool:
     return False
 
 
+def _not_top_frame(r, fn: FuncInfo, e, al):
+    """A name some definition of which is `<stack>[<constant other than -1>]`: the offending subscript, else None."""
+    if not isinstance(e, ast.Name):
+        return None
+    for d in _assignments_to(fn, e.id):
+        v = d[1]
+        if d[2] is None and isinstance(v, ast.Subscript) and r.tl_of_expr(fn, v.value, al) is not None and not _index_is_top(v) \
+                and isinstance(v.slice, (ast.Constant, ast.UnaryOp)):
+            return v
+    return None
+
+
 def reads_stack_only(r, fn: FuncInfo, stack_tl, stack_attr) -> bool:
     """A helper that only inspects the stack (hasattr/len/top-or-None): usable as the
     'a context exists' test."""
@@ -395,6 +479,8 @@ def check_storage_discipline(ctx: RuleContext, r, tag: str = "C05.4"):
                             ctx.ok(tag, get.qualname, f"slot {i} read from the top of the stack")
                     elif isinstance(val, ast.Subscript) and r.tl_of_expr(get, val.value, gal):
                         ctx.bad(tag, get, val, "get_shape_memo reads a context other than the innermost one")
+                    elif isinstance(val, ast.Name) and _not_top_frame(r, get, val, gal):
+                        ctx.bad(tag, get, _not_top_frame(r, get, val, gal), "get_shape_memo reads a context other than the innermost one")
                     else:
                         raise AnalysisError(f"get_shape_memo: unrecognised source for `{e.id}`: {norm(val)}")
                 else:
